@@ -1,5 +1,274 @@
-import Solvor.Mst.Model
-/-! Mst: property theorems only (helper lemmas live in Lemmas.lean). -/
+import Solvor.Mst.Orient
+/-!
+Mst: the property theorems of C13 (definitions in `Spec.lean`, helper lemmas in `Lemmas.lean`,
+`Minimal.lean`, `KruskalLemmas.lean`, `PrimLemmas.lean`).
+
+T-spec (verified checkers, evaluated by the driver on the implementation's own output):
+  `chkSpanningTree_iff`, `spanningTree_acyclic`, `chkSpanningForest_iff`, `connectedB_correct`,
+  `mst_cycle_cert`, `msf_cycle_cert`
+T-model (for every input):
+  `kruskal_forest`, `kruskal_minimal`, `prim_tree`, `prim_minimal`, `kruskal_prim_agree`
+-/
 namespace Solvor.Mst
+open Solvor.Gen (Status)
+
+/-! ## T-spec -/
+
+/-- The Bool checker run on the implementation's edge list decides "is a spanning tree":
+edges of the input, `n-1` of them, joining all nodes. -/
+theorem chkSpanningTree_iff (n : Nat) (E T : List Edge) :
+    chkSpanningTree n E T = true ↔ IsSpanningTree n E T := by
+  simp only [chkSpanningTree, Bool.and_eq_true, beq_iff_eq, subsetB_iff, connectedB_iff]
+  exact ⟨fun ⟨⟨h1, h2⟩, h3⟩ => ⟨h1, h2, h3⟩, fun h => ⟨⟨h.sub, h.card⟩, h.conn⟩⟩
+
+example : IsSpanningTree 4 [⟨0, 1, 4⟩, ⟨0, 2, 3⟩, ⟨1, 2, 2⟩, ⟨1, 3, 5⟩, ⟨2, 3, 6⟩]
+    [⟨1, 2, 2⟩, ⟨0, 2, 3⟩, ⟨1, 3, 5⟩] := (chkSpanningTree_iff _ _ _).1 (by decide)
+
+/-- `n-1` edges that join all `n` nodes contain no cycle (no self loop, no parallel pair, no longer
+cycle): "without a cycle" need not be checked separately. -/
+theorem spanningTree_acyclic {n : Nat} {E T : List Edge} (hE : Valid n E) (h : IsSpanningTree n E T) :
+    Acyclic T := by
+  have hn : 0 < n := by have := h.card; omega
+  have hc := (connected_iff_comps hn T).1 h.conn
+  exact tight_acyclic (valid_of_sub hE h.sub) (by have := h.card; omega)
+
+example : Acyclic [⟨1, 2, 2⟩, ⟨0, 2, 3⟩, ⟨1, 3, 5⟩] :=
+  spanningTree_acyclic (n := 4) (E := [⟨0, 1, 4⟩, ⟨0, 2, 3⟩, ⟨1, 2, 2⟩, ⟨1, 3, 5⟩, ⟨2, 3, 6⟩])
+    (validB_iff.1 (by decide)) ((chkSpanningTree_iff _ _ _).1 (by decide))
+
+/-- The Bool checker for forests decides "is a spanning forest of the input": edges of the input,
+no cycle, joining everything the input joins. -/
+theorem chkSpanningForest_iff (E T : List Edge) : chkSpanningForest E T = true ↔ IsSpanningForest E T := by
+  simp only [chkSpanningForest, Bool.and_eq_true, subsetB_iff, forestB_iff, spansB_iff]
+  exact ⟨fun ⟨⟨h1, h2⟩, h3⟩ => ⟨h1, h2, h3⟩, fun h => ⟨⟨h.sub, h.acyclic⟩, h.spans⟩⟩
+
+example : IsSpanningForest [⟨0, 1, 4⟩, ⟨2, 3, 1⟩, ⟨2, 2, -1⟩, ⟨3, 2, 7⟩] [⟨2, 3, 1⟩, ⟨0, 1, 4⟩] :=
+  (chkSpanningForest_iff _ _).1 (by decide)
+
+/-- The connectivity test the driver uses to decide which clause of the property applies. -/
+theorem connectedB_correct (n : Nat) (F : List Edge) : connectedB n F = true ↔ Connected n F := connectedB_iff
+
+example : ¬ Connected 4 [⟨0, 1, 4⟩, ⟨2, 3, 1⟩, ⟨2, 2, -1⟩] := by
+  rw [← connectedB_correct]; decide
+
+/-- a spanning tree is a spanning forest -/
+theorem IsSpanningTree.forest {n : Nat} {E T : List Edge} (hE : Valid n E) (h : IsSpanningTree n E T) :
+    IsSpanningForest E T where
+  sub := h.sub
+  acyclic := spanningTree_acyclic hE h
+  spans := by
+    intro a b hab
+    by_cases heq : a = b
+    · subst heq; exact Conn.refl _
+    · have := hab.lt_of_valid hE heq
+      exact h.conn a b this.1 this.2
+
+/-- **Minimality certificate (forests).**  If the verified checker `chkMinCert` accepts a spanning
+forest `T` of `E` – every input edge `(u, v, w)` has `u` and `v` already joined by the edges of `T`
+of weight `≤ w`, i.e. no tree path has an edge heavier than a non-tree edge closing it – then `T`
+weighs no more than *any* spanning forest of `E`. -/
+theorem msf_cycle_cert {E T T' : List Edge} (hT : IsSpanningForest E T) (hcert : chkMinCert E T = true)
+    (hT' : IsSpanningForest E T') : weight T ≤ weight T' := by
+  obtain ⟨n, _, hE⟩ := exists_valid E
+  have eqc : ∀ {X}, IsSpanningForest E X → comps n X = comps n E := fun hX =>
+    comps_congr fun a b => ⟨Conn.mono hX.sub, hX.spans a b⟩
+  have t1 := acyclic_tight (valid_of_sub hE hT.sub) hT.acyclic
+  have t2 := acyclic_tight (valid_of_sub hE hT'.sub) hT'.acyclic
+  have e1 := eqc hT
+  have e2 := eqc hT'
+  exact cert_weight_le hE hT.sub (chkMinCert_iff.1 hcert) hT'.sub t2 (by omega)
+
+/-- **Minimality certificate (trees).**  A spanning tree accepted by `chkMinCert` is a minimum
+spanning tree: it weighs no more than any spanning tree of the input. -/
+theorem mst_cycle_cert {n : Nat} {E T T' : List Edge} (hE : Valid n E) (hT : IsSpanningTree n E T)
+    (hcert : chkMinCert E T = true) (hT' : IsSpanningTree n E T') : weight T ≤ weight T' :=
+  msf_cycle_cert (hT.forest hE) hcert (hT'.forest hE)
+
+-- the docstring graph: the tree {1-2, 0-2, 1-3} is certified, so it is lighter than e.g. {0-1, 0-2, 2-3}
+example : weight [⟨1, 2, 2⟩, ⟨0, 2, 3⟩, ⟨1, 3, 5⟩] ≤ weight [⟨0, 1, 4⟩, ⟨0, 2, 3⟩, ⟨2, 3, 6⟩] :=
+  mst_cycle_cert (n := 4) (E := [⟨0, 1, 4⟩, ⟨0, 2, 3⟩, ⟨1, 2, 2⟩, ⟨1, 3, 5⟩, ⟨2, 3, 6⟩])
+    (validB_iff.1 (by decide)) ((chkSpanningTree_iff _ _ _).1 (by decide)) (by decide)
+    ((chkSpanningTree_iff _ _ _).1 (by decide))
+
+/-! ## T-model: Kruskal -/
+
+/-- **C13, structure of what `kruskal` returns** (`n ≥ 1`, endpoints `< n` – other inputs raise).
+There is an edge list `acc` – the accepted edges – that
+* consists of input edges (with multiplicity: a sub-multiset of `E`),
+* has no cycle,
+* joins exactly what the input joins, and has `n - (number of components of the input)` edges,
+and the returned `Result` is: on a connected input `OPTIMAL` with solution `acc` (`n-1` edges) and
+objective `Σ weights`; on a disconnected input `INFEASIBLE` without solution, or with
+`allow_forest` `FEASIBLE` with the forest `acc` and its weight. -/
+theorem kruskal_forest (n : Nat) (E : List Edge) (af : Bool) (hn : 0 < n) (hE : Valid n E) :
+    ∃ acc : List Edge,
+      acc.Subperm E ∧ Acyclic acc ∧ (∀ a b, Conn acc a b ↔ Conn E a b) ∧ acc.length + numComps n E = n ∧
+      (Connected n E → acc.length + 1 = n ∧ (kruskal n E af).status = .OPTIMAL ∧
+        (kruskal n E af).sol = some acc ∧ (kruskal n E af).obj = some (weight acc)) ∧
+      (¬ Connected n E → af = true → (kruskal n E af).status = .FEASIBLE ∧
+        (kruskal n E af).sol = some acc ∧ (kruskal n E af).obj = some (weight acc)) ∧
+      (¬ Connected n E → af = false → (kruskal n E af).status = .INFEASIBLE ∧
+        (kruskal n E af).sol = none ∧ (kruskal n E af).obj = none) := by
+  have hp := kruskal_post hn hE
+  set s := kloop n (sortEdges E) kinit with hs
+  have hv : Valid n s.acc := valid_of_sub hE hp.mem
+  have hcomps : s.acc.length + comps n E = n := by rw [← hp.comps_eq]; exact hp.tight
+  have hkr : kruskal n E af = kfinish n E.length af s.acc s.total s.iters := rfl
+  rw [hkr]
+  refine ⟨s.acc, hp.sub.subperm.trans (sortEdges_perm E).subperm, tight_acyclic hv hp.tight, hp.conn_iff,
+    by rw [← comps_eq_numComps]; exact hcomps, ?_, ?_, ?_⟩
+  · intro hc
+    have h1 : comps n E = 1 := (connected_iff_comps hn E).1 hc
+    have hlen : s.acc.length + 1 = n := by omega
+    have : ¬ s.acc.length + 1 < n := by omega
+    simp [kfinish, hp.total, hlen]
+  · intro hc haf
+    have h1 : comps n E ≠ 1 := fun h => hc ((connected_iff_comps hn E).2 h)
+    have h2 := comps_pos hn E
+    have : s.acc.length + 1 < n := by omega
+    simp [kfinish, this, haf, hp.total]
+  · intro hc haf
+    have h1 : comps n E ≠ 1 := fun h => hc ((connected_iff_comps hn E).2 h)
+    have h2 := comps_pos hn E
+    have : s.acc.length + 1 < n := by omega
+    simp [kfinish, this, haf]
+
+-- non-vacuity: the docstring graph (connected) and a disconnected graph with a self loop
+example : (kruskal 4 [⟨0, 1, 4⟩, ⟨0, 2, 3⟩, ⟨1, 2, 2⟩, ⟨1, 3, 5⟩, ⟨2, 3, 6⟩] false).sol
+    = some [⟨1, 2, 2⟩, ⟨0, 2, 3⟩, ⟨1, 3, 5⟩] := by decide
+example : 0 < 4 ∧ Valid 4 [⟨0, 1, 4⟩, ⟨0, 2, 3⟩, ⟨1, 2, 2⟩, ⟨1, 3, 5⟩, ⟨2, 3, 6⟩] :=
+  ⟨by omega, validB_iff.1 (by decide)⟩
+example : (kruskal 4 [⟨0, 1, 4⟩, ⟨2, 3, 1⟩, ⟨2, 2, -1⟩] true).status = .FEASIBLE := by decide
+
+/-- **C13, minimality of `kruskal`** (the exchange argument, in counting form).  Whatever edge list
+`kruskal` returns – a tree on a connected input, a forest with `allow_forest` – weighs no more
+than any spanning forest of the input, in particular no more than any spanning tree; and the
+reported objective is that weight. -/
+theorem kruskal_minimal (n : Nat) (E : List Edge) (af : Bool) (hn : 0 < n) (hE : Valid n E)
+    (acc : List Edge) (hsol : (kruskal n E af).sol = some acc) :
+    (kruskal n E af).obj = some (weight acc) ∧
+    (∀ T', IsSpanningForest E T' → weight acc ≤ weight T') ∧
+    (∀ T', IsSpanningTree n E T' → weight acc ≤ weight T') := by
+  have hp := kruskal_post hn hE
+  set s := kloop n (sortEdges E) kinit with hs
+  have hkr : kruskal n E af = kfinish n E.length af s.acc s.total s.iters := rfl
+  have hacc : acc = s.acc ∧ (kruskal n E af).obj = some (weight acc) := by
+    rw [hkr] at hsol ⊢
+    unfold kfinish at hsol ⊢
+    by_cases h1 : s.acc.length + 1 < n <;> by_cases h2 : af = true <;>
+      simp only [h1, h2, if_true, if_false, Option.some.injEq, reduceCtorEq] at hsol ⊢ <;>
+      (subst hsol; exact ⟨rfl, by rw [hp.total]⟩)
+  obtain ⟨rfl, hobj⟩ := hacc
+  have hv : Valid n s.acc := valid_of_sub hE hp.mem
+  have hforest : IsSpanningForest E s.acc :=
+    ⟨hp.mem, tight_acyclic hv hp.tight, fun a b hab => (hp.conn_iff a b).2 hab⟩
+  have hmin : ∀ T', IsSpanningForest E T' → weight s.acc ≤ weight T' := fun T' hT' =>
+    msf_cycle_cert hforest (chkMinCert_iff.2 hp.minCert) hT'
+  exact ⟨hobj, hmin, fun T' hT' => hmin T' (hT'.forest hE)⟩
+
+example : (kruskal 4 [⟨0, 1, 4⟩, ⟨0, 2, 3⟩, ⟨1, 2, 2⟩, ⟨1, 3, 5⟩, ⟨2, 3, 6⟩] false).obj = some 10 ∧
+    IsSpanningTree 4 [⟨0, 1, 4⟩, ⟨0, 2, 3⟩, ⟨1, 2, 2⟩, ⟨1, 3, 5⟩, ⟨2, 3, 6⟩] [⟨0, 1, 4⟩, ⟨0, 2, 3⟩, ⟨2, 3, 6⟩] :=
+  ⟨by decide, (chkSpanningTree_iff _ _ _).1 (by decide)⟩
+
+/-! ## T-model: Prim -/
+
+/-- the run of `prim` on a well-formed undirected input, by the state its loop ends in -/
+private theorem prim_cases {adj : Adj} (hg : GoodAdj adj) {start : Nat} (hs : start < adj.length) :
+    (∃ acc, prim adj start = ⟨.OPTIMAL, some acc, some (weight acc),
+        (ploop adj adj.length (adj.size + 1) (pinit adj start)).iters,
+        (ploop adj adj.length (adj.size + 1) (pinit adj start)).evals⟩ ∧
+      IsSpanningTree adj.length (arcs adj) acc ∧ MinCert (arcs adj) acc) ∨
+    (prim adj start = ⟨.INFEASIBLE, none, none,
+        (ploop adj adj.length (adj.size + 1) (pinit adj start)).iters,
+        (ploop adj adj.length (adj.size + 1) (pinit adj start)).evals⟩ ∧
+      ¬ Connected adj.length (arcs adj)) := by
+  obtain ⟨hinv, hfin⟩ := prim_final hg hs
+  have hne : adj.isEmpty = false := by
+    cases adj with
+    | nil => simp at hs
+    | cons _ _ => rfl
+  unfold prim
+  simp only [hne, Bool.false_eq_true, if_false]
+  by_cases hlt : (ploop adj adj.length (adj.size + 1) (pinit adj start)).inT.length < adj.length
+  · right
+    rcases hfin with h | h
+    · exact absurd hlt h
+    · exact ⟨by simp [hlt], pinv_stuck hg hinv hlt h⟩
+  · left
+    obtain ⟨htree, hcert⟩ := pinv_full hg hinv hlt
+    exact ⟨_, by simp [hlt, hinv.total], htree, hcert⟩
+
+/-- **C13, structure of what `prim` returns** on an undirected graph given as adjacency lists
+(every neighbour is a key, every edge listed from both ends), from any start node: on a connected
+graph `OPTIMAL` with `n-1` arcs of the input that join all nodes – a spanning tree, hence without
+a cycle – and objective `Σ weights`; on a disconnected graph `INFEASIBLE` without solution. -/
+theorem prim_tree (adj : Adj) (start : Nat) (hg : GoodAdj adj) (hs : start < adj.length) :
+    (Connected adj.length (arcs adj) → ∃ acc, (prim adj start).status = .OPTIMAL ∧
+        (prim adj start).sol = some acc ∧ (prim adj start).obj = some (weight acc) ∧
+        IsSpanningTree adj.length (arcs adj) acc ∧ Acyclic acc) ∧
+    (¬ Connected adj.length (arcs adj) → (prim adj start).status = .INFEASIBLE ∧
+        (prim adj start).sol = none ∧ (prim adj start).obj = none) := by
+  rcases prim_cases hg hs with ⟨acc, hp, htree, _⟩ | ⟨hp, hnc⟩
+  · have hc : Connected adj.length (arcs adj) := fun a b ha hb => Conn.mono htree.sub (htree.conn a b ha hb)
+    refine ⟨fun _ => ⟨acc, ?_, ?_, ?_, htree, spanningTree_acyclic hg.valid htree⟩, fun h => absurd hc h⟩ <;> rw [hp]
+  · refine ⟨fun h => absurd h hnc, fun _ => ?_⟩
+    rw [hp]; exact ⟨rfl, rfl, rfl⟩
+
+-- non-vacuity: the docstring graph as adjacency lists, started from node 3
+example : GoodAdj [[(1, 4), (2, 3)], [(0, 4), (2, 2), (3, 5)], [(0, 3), (1, 2), (3, 6)], [(1, 5), (2, 6)]] ∧
+    (prim [[(1, 4), (2, 3)], [(0, 4), (2, 2), (3, 5)], [(0, 3), (1, 2), (3, 6)], [(1, 5), (2, 6)]] 3).sol
+      = some [⟨3, 1, 5⟩, ⟨1, 2, 2⟩, ⟨2, 0, 3⟩] := by
+  exact ⟨goodAdjB_iff.1 (by decide), by decide⟩
+
+/-- **C13, minimality of `prim`** (the cut argument, carried as the bottleneck clause of the loop
+invariant): the tree `prim` returns weighs no more than any spanning tree – indeed any spanning
+forest – of the input. -/
+theorem prim_minimal (adj : Adj) (start : Nat) (hg : GoodAdj adj) (hs : start < adj.length)
+    (acc : List Edge) (hsol : (prim adj start).sol = some acc) :
+    (prim adj start).obj = some (weight acc) ∧
+    (∀ T', IsSpanningTree adj.length (arcs adj) T' → weight acc ≤ weight T') ∧
+    (∀ T', IsSpanningForest (arcs adj) T' → weight acc ≤ weight T') := by
+  rcases prim_cases hg hs with ⟨acc', hp, htree, hcert⟩ | ⟨hp, _⟩
+  · rw [hp] at hsol ⊢
+    simp only [Option.some.injEq] at hsol
+    subst hsol
+    have hmin : ∀ T', IsSpanningForest (arcs adj) T' → weight acc' ≤ weight T' := fun T' hT' =>
+      msf_cycle_cert (htree.forest hg.valid) (chkMinCert_iff.2 hcert) hT'
+    exact ⟨rfl, fun T' hT' => hmin T' (hT'.forest hg.valid), hmin⟩
+  · rw [hp] at hsol; simp at hsol
+
+example : (prim [[(1, 4), (2, 3)], [(0, 4), (2, 2), (3, 5)], [(0, 3), (1, 2), (3, 6)], [(1, 5), (2, 6)]] 3).obj
+    = some 10 := by decide
+
+/-- **C13, the two agree.**  `kruskal` is given the edge list `E` (each undirected edge once, in
+some orientation), `prim` the adjacency lists `adj` of the same undirected graph (`SameGraph`,
+decided by the verified `sameGraphB`).  On a connected graph both report the same objective, for
+either value of `allow_forest` and every start node. -/
+theorem kruskal_prim_agree (n : Nat) (E : List Edge) (af : Bool) (adj : Adj) (start : Nat)
+    (hn : 0 < n) (hE : Valid n E) (hg : GoodAdj adj) (hs : start < adj.length) (hlen : adj.length = n)
+    (hsame : SameGraph E (arcs adj)) (hc : Connected n E) :
+    (kruskal n E af).obj = (prim adj start).obj ∧ (prim adj start).obj ≠ none := by
+  subst hlen
+  have hcA : Connected adj.length (arcs adj) := fun a b ha hb => hsame.1.conn (hc a b ha hb)
+  obtain ⟨accK, hsubK, hacK, hconnK, _, hK, _, _⟩ := kruskal_forest adj.length E af hn hE
+  obtain ⟨_, _, hsolK, hobjK⟩ := hK hc
+  obtain ⟨accP, _, hsolP, hobjP, htreeP, _⟩ := (prim_tree adj start hg hs).1 hcA
+  have hminK := (kruskal_minimal adj.length E af hn hE accK hsolK).2.1
+  have hminP := (prim_minimal adj start hg hs accP hsolP).2.2
+  have hforK : IsSpanningForest E accK := ⟨fun e he => hsubK.subset he, hacK, fun a b h => (hconnK a b).2 h⟩
+  have hforP : IsSpanningForest (arcs adj) accP := htreeP.forest hg.valid
+  obtain ⟨f1, w1⟩ := forest_transfer hsame hforP
+  obtain ⟨f2, w2⟩ := forest_transfer hsame.symm hforK
+  have h1 := hminK _ f1
+  have h2 := hminP _ f2
+  rw [hobjK, hobjP]
+  exact ⟨by rw [show weight accK = weight accP by omega], by simp⟩
+
+-- non-vacuity: the docstring graph, once as an edge list and once as adjacency lists
+example : SameGraph [⟨0, 1, 4⟩, ⟨0, 2, 3⟩, ⟨1, 2, 2⟩, ⟨1, 3, 5⟩, ⟨2, 3, 6⟩]
+      (arcs [[(1, 4), (2, 3)], [(0, 4), (2, 2), (3, 5)], [(0, 3), (1, 2), (3, 6)], [(1, 5), (2, 6)]]) ∧
+    GoodAdj [[(1, 4), (2, 3)], [(0, 4), (2, 2), (3, 5)], [(0, 3), (1, 2), (3, 6)], [(1, 5), (2, 6)]] ∧
+    Connected 4 [⟨0, 1, 4⟩, ⟨0, 2, 3⟩, ⟨1, 2, 2⟩, ⟨1, 3, 5⟩, ⟨2, 3, 6⟩] :=
+  ⟨sameGraphB_iff.1 (by decide), goodAdjB_iff.1 (by decide), connectedB_iff.1 (by decide)⟩
 
 end Solvor.Mst
